@@ -26,9 +26,19 @@ fn assert_send_sync<T: Send + Sync>() {}
 
 
 def plain(u, src, kind, name):
+    """Emit one type definition as plain Rust, preceded by every struct / enum / type alias of the same file that it mentions and that was not
+    emitted yet (a helper type introduced for a new field must be in scope for the obligation to be stated at all)."""
+    import re
+    done = u.__dict__.setdefault("_types_emitted", set())
+    if (src.rel, name) in done:
+        return None
+    done.add((src.rel, name))
     f = src.item(kind, name)
     strip_attrs_and_docs(f)
     f.props_all = ["C20"]   # the obligations are the labelled assertions below, one per type
+    for it in src.items:
+        if it.kind in ("struct", "enum", "type") and (src.rel, it.name) not in done and it.name != name and re.search(r"\b%s\b" % re.escape(it.name), f.orig):
+            plain(u, src, it.kind, it.name)
     u.emit(f)
     return f
 
